@@ -7,6 +7,7 @@
 package c15
 
 import (
+	"sort"
 	"verif/internal/engineseam"
 
 	"encoding/json"
@@ -83,7 +84,69 @@ func spellings(thorough bool) []spelling {
 		{`[1, 2.5, "s"]`, "json", "list literal for custom scalar"},
 		{`2147483648`, "json", "2^31 for custom scalar"},
 	}
+	if thorough {
+		s = append(s, generatedSpellings(3, 4)...)
+	} else {
+		s = append(s, generatedSpellings(2, 3)...)
+	}
 	return s
+}
+
+// generatedSpellings: every quoted string of <= maxQuoted atoms (quick 2,
+// thorough 3), every block string of <= maxBlock atoms (quick 3, thorough 4),
+// every int / float of a small literal grammar. The
+// class of a generated spelling is the SET of atom kinds it uses, so that one
+// root cause gives a handful of fingerprints instead of one per string.
+func generatedSpellings(maxQuoted, maxBlock int) []spelling {
+	var out []spelling
+	type atom struct{ text, kind string }
+	gen := func(atoms []atom, maxLen int, render func(body string) string, label string) {
+		var rec func(cur []int)
+		rec = func(cur []int) {
+			if len(cur) > 0 {
+				var sb strings.Builder
+				kinds := map[string]bool{}
+				for _, i := range cur {
+					sb.WriteString(atoms[i].text)
+					kinds[atoms[i].kind] = true
+				}
+				var ks []string
+				for k := range kinds {
+					if k != "plain" {
+						ks = append(ks, k)
+					}
+				}
+				sort.Strings(ks)
+				out = append(out, spelling{render(sb.String()), "string", label + " with {" + strings.Join(ks, ", ") + "}"})
+			}
+			if len(cur) == maxLen {
+				return
+			}
+			for i := range atoms {
+				rec(append(cur, i))
+			}
+		}
+		rec(nil)
+	}
+	quoted := []atom{{"a", "plain"}, {" ", "space"}, {`\"`, `\"`}, {`\\`, `\\`}, {`\/`, `\/`}, {`\n`, `\n`}, {`\t`, `\t`}, {`\u00e9`, `\uXXXX`},
+		{"\t", "raw TAB"}, {"é", "raw UTF-8"}, {"$", "$"}, {"{", "{"}}
+	gen(quoted, maxQuoted, func(b string) string { return `"` + b + `"` }, "generated quoted string")
+	block := []atom{{"a", "plain"}, {" ", "space"}, {"\n", "LF"}, {"\r", "CR"}, {`\"""`, `\"""`}, {`"`, "quote"}, {`\`, "backslash"}, {"\t", "TAB"}}
+	gen(block, maxBlock, func(b string) string { return `"""` + b + `"""` }, "generated block string")
+	for _, sign := range []string{"", "-"} {
+		for _, ip := range []string{"0", "1", "12", "907"} {
+			out = append(out, spelling{sign + ip, "int", "generated int"})
+			for _, fr := range []string{"", ".0", ".5", ".250", ".000001"} {
+				for _, ex := range []string{"", "e1", "E-2", "e+3", "e0", "E10"} {
+					if fr == "" && ex == "" {
+						continue
+					}
+					out = append(out, spelling{sign + ip + fr + ex, "float", "generated float (fraction " + fmt.Sprint(fr != "") + ", exponent " + fmt.Sprint(ex != "") + ")"})
+				}
+			}
+		}
+	}
+	return out
 }
 
 // position wraps a literal of a given kind into an argument list of echo.
@@ -246,7 +309,7 @@ func normalizedVariables(schema *graphql.Schema, q string, vars []byte) ([]byte,
 func TestCheck(t *testing.T) {
 	run := vk.Start("C15", "exploration")
 	defer run.Finish()
-	run.Rule("value spellings (strings with every escape, raw TAB / multi-byte UTF-8, block strings; ints; floats; booleans; enum; null; ID; custom scalar incl. 40 digit ints, objects, lists) x argument position (direct, list element, nested list, input object field, nested object, list in object, object in list, whole list, whole object) x form (literal, variable with the same JSON value, variable default, omitted variable, explicit null variable) x target (root field, entity field behind _entities); distinct = distinct echoed values")
+	run.Rule("value spellings (strings with every escape, raw TAB / multi-byte UTF-8, block strings; ints; floats; booleans; enum; null; ID; custom scalar incl. 40 digit ints, objects, lists) x argument position (direct, list element, nested list, input object field, nested object, list in object, object in list, whole list, whole object) x form (literal, variable with the same JSON value, variable default, omitted variable, explicit null variable) x target (root field, entity field behind _entities); plus GENERATED spellings: every quoted string of <= 2 (thorough 3) atoms from {a, space, \\\", \\\\, \\/, \\n, \\t, \\u00e9, raw TAB, raw UTF-8, $, {}, every block string of <= 3 (thorough 4) atoms from {a, space, LF, CR, \\\"\"\", quote, backslash, TAB}, ints and floats of a small literal grammar; distinct = distinct echoed values")
 	run.Assume("gqlparser's lexer/parser is the reference for what a literal denotes; only documents gqlparser accepts are judged",
 		"the simulated subgraph echoes the canonical form (exact decimals, code point sequences, absent vs null) of what it received")
 	s := fedlab.SArgs()
@@ -304,6 +367,12 @@ func TestCheck(t *testing.T) {
 	cases = ordered
 	for ci, c := range cases {
 		if rin == nil && !isControl(c) && !run.Mine(int64(ci)) {
+			continue
+		}
+		if strings.HasPrefix(c.sp.lit, `"""`) && !blockIsOneToken(c.sp.lit) {
+			// the reference parser is lenient here: by the specification's lexer the
+			// first unescaped """ ends the token, so this text is not ONE block string
+			run.Count("not_judged_block_string_is_not_one_token", 1)
 			continue
 		}
 		if strings.HasPrefix(c.sp.lit, `"""`) && !blockOraclesAgree(c.sp.lit) {
@@ -461,6 +530,26 @@ func problemSite(p string) string {
 // internal/engineseam) instead of being copied here.
 var seam, seamFirst, seamSecond = engineseam.Must()
 
+// blockIsOneToken: lexing lit by the specification (a BlockStringCharacter is
+// any character except """ and \""", the first unescaped """ closes) consumes
+// exactly the whole text.
+func blockIsOneToken(lit string) bool {
+	if len(lit) < 6 || !strings.HasPrefix(lit, `"""`) {
+		return false
+	}
+	i := 3
+	for i < len(lit) {
+		if strings.HasPrefix(lit[i:], "\\\"\"\"") {
+			i += 4
+			continue
+		}
+		if strings.HasPrefix(lit[i:], `"""`) {
+			return i+3 == len(lit)
+		}
+		i++
+	}
+	return false
+}
 
 // specBlockStringValue implements BlockStringValue() of the GraphQL
 // specification (October 2021, section 2.9.4) on the raw text between the
